@@ -399,7 +399,11 @@ def gen_handles(out_path):
         with open(out_path, "w") as f: f.write(text)
     return text
 
-OUTPUTS = {"handles": "Handles.v"}
+OUTPUTS = {"handles": "Handles.v", "constwrites": "ConstWrites.v"}
+
+def gen_constwrites(_):
+    import constwrites
+    return constwrites.generate()
 
 if __name__ == "__main__":
     which = sys.argv[1]
